@@ -40,8 +40,23 @@ def clang_docs(repo, builddir, src, flt):
     return docs
 
 
-def find_def(docs, name, nparams=None, cls=None):
+def find_def(docs, name, nparams=None, cls=None, instantiation=None, ptypes=None):
     cands = []
+    if instantiation is not None:
+        # member / function template: take the instantiation number `instantiation` (in AST order) of the template `name`;
+        # instantiations are the children that carry TemplateArgument nodes (the first child is the dependent pattern)
+        insts = []
+        for d in docs:
+            if d.get('kind') == 'FunctionTemplateDecl' and d.get('name') == name:
+                for c in d.get('inner', []):
+                    if c.get('kind') in ('CXXMethodDecl', 'FunctionDecl') and any(x.get('kind') == 'TemplateArgument' for x in c.get('inner', [])) \
+                            and any(x.get('kind') == 'CompoundStmt' for x in c.get('inner', [])):
+                        ps = [x for x in c['inner'] if x['kind'] == 'ParmVarDecl']
+                        if nparams is None or len(ps) == nparams:
+                            insts.append(c)
+        if len(insts) <= instantiation:
+            raise Unsupported('no instantiation %d of template %s/%s found' % (instantiation, name, nparams))
+        return insts[instantiation]
     for d in docs:
         if d.get('name') != name or d.get('kind') not in ('CXXMethodDecl', 'FunctionDecl', 'CXXConstructorDecl'):
             continue
@@ -49,6 +64,8 @@ def find_def(docs, name, nparams=None, cls=None):
             continue
         ps = [c for c in d.get('inner', []) if c['kind'] == 'ParmVarDecl']
         if nparams is not None and len(ps) != nparams:
+            continue
+        if ptypes is not None and not (len(ps) == len(ptypes) and all(pt in p.get('type', {}).get('qualType', '') for pt, p in zip(ptypes, ps))):
             continue
         cands.append(d)
     for d in docs:
@@ -94,12 +111,18 @@ class Tr:
         self.uses_this = False
         self.enums = {}          # E_name -> None (value resolved later)
         self.selfname = fn['name']
+        self.selfids = {fn.get('id'), fn.get('previousDecl')} - {None}
+        self.locals = {p['name'] for p in self.params}
+        self.consts = {}
         self.selfrec = False
         self.mutates = False
 
     # ------------------------------------------------------------ expressions
     def callname(self, kind, name, nargs):
-        return '%s_%s_%d' % (kind, name.replace('operator', 'op').replace('==', 'eq').replace('!=', 'ne').replace('[]', 'idx').replace('()', 'call'), nargs)
+        nm = name.replace('operator', 'op').replace('==', 'eq').replace('!=', 'ne').replace('[]', 'idx').replace('()', 'call')
+        for sym, txt in (('<=', 'le'), ('>=', 'ge'), ('<', 'lt'), ('>', 'gt'), ('+', 'add'), ('-', 'sub'), ('*', 'mul'), ('/', 'div')):
+            nm = nm.replace(sym, txt)       # arithmetic / ordering operators of class types (DD): c_opadd_2, c_oplt_2 ...
+        return '%s_%s_%d' % (kind, nm, nargs)
 
     def expr(self, n):
         k = n['kind']
@@ -112,6 +135,8 @@ class Tr:
                 return '(toZ %s)' % inner
             if ck == 'IntegralToBoolean':
                 return '(negb (Z.eqb %s 0))' % inner
+            if ck == 'PointerToBoolean':
+                return '(isnonnull %s)' % inner      # C14 units: `if (callback)` on a function pointer held in the state
             if ck == 'FloatingToBoolean':
                 raise Unsupported('FloatingToBoolean')
             if ck == 'IntegralCast' and is_bool(n['inner'][0]):
@@ -124,6 +149,12 @@ class Tr:
                 nm = 'E_%s_%s' % (et, rd['name']) if et and ' ' not in et else 'E_' + rd['name']
                 self.enums[nm] = rd
                 return nm
+            if rd['kind'] == 'VarDecl' and rd['name'] not in self.locals and rd['name'] in self.unit.get('globals', ()):
+                self.uses_this = True            # unit option globals: writable file-scope variables live in the threaded state `st`
+                return '(g_%s st)' % rd['name']
+            if rd['kind'] == 'VarDecl' and rd['name'] not in self.locals and rd['name'] in self.unit.get('consts', {}):
+                self.consts['g_' + rd['name']] = rd
+                return 'g_' + rd['name']
             return 'v_' + rd['name']
         if k == 'MemberExpr':
             base = n['inner'][0]
@@ -189,8 +220,10 @@ class Tr:
             if base['kind'] == 'CXXThisExpr':
                 self.uses_this = True
                 if name == self.selfname and len(args) == len(self.params):
-                    self.selfrec = True
-                    return '(self st %s)' % ' '.join(args)
+                    if callee.get('referencedMemberDecl') in self.selfids:
+                        self.selfrec = True
+                        return '(self st %s)' % ' '.join(args)
+                    return '(%s st%s)' % (self.callname('m_base', name, len(args)), ''.join(' ' + a for a in args))
                 obj = 'st'
             else:
                 obj = self.expr(base)
@@ -217,7 +250,7 @@ class Tr:
         if k == 'ArraySubscriptExpr':
             a, i = n['inner']
             return '(idx %s %s)' % (self.expr(a), self.expr(i))
-        if k == 'CXXConstructExpr':
+        if k in ('CXXConstructExpr', 'CXXTemporaryObjectExpr'):
             args = [self.expr(a) for a in n.get('inner', [])]
             if len(args) == 1 and n.get('ctorType', {}).get('qualType', '').count('&'):
                 return args[0]      # copy / move construction is the identity
@@ -226,11 +259,18 @@ class Tr:
         if k == 'CXXDefaultArgExpr':
             raise Unsupported('default argument')
         if k == 'UnaryExprOrTypeTraitExpr':
+            # sizeof(<fixed-size scalar type>) on the LP64 / IEEE-754 target of the builds (C11 unit minMemSize)
+            sz = {'double': 8, 'float': 4, 'char': 1, 'unsigned char': 1, 'int32_t': 4, 'uint32_t': 4, 'int64_t': 8, 'uint64_t': 8}
+            at = (n.get('argType') or {}).get('qualType', '')
+            if n.get('name') == 'sizeof' and at in sz:
+                return '(%d)%%Z' % sz[at]
             raise Unsupported('sizeof')
         raise Unsupported('expr ' + k)
 
     # ------------------------------------------------------------ statements (CPS; k : () -> str)
     def ret(self, e=None):
+        if self.isvoid and self.unit.get('effects'):
+            return '(ok st)'
         if self.isvoid:
             return 'st'
         if self.mutates:
@@ -250,6 +290,9 @@ class Tr:
             if base['kind'] == 'DeclRefExpr':
                 v = 'v_' + base['referencedDecl']['name']
                 return '(let %s := set_%s %s %s in\n %s)' % (v, lhs['name'], v, e, cont())
+        if lhs['kind'] == 'DeclRefExpr' and lhs['referencedDecl']['name'] in self.unit.get('globals', ()) and lhs['referencedDecl']['name'] not in self.locals:
+            self.uses_this = True; self.mutates = True
+            return '(let st := set_g_%s st %s in\n %s)' % (lhs['referencedDecl']['name'], e, cont())
         if lhs['kind'] == 'DeclRefExpr':
             return '(let v_%s := %s in\n %s)' % (lhs['referencedDecl']['name'], e, cont())
         if lhs['kind'] == 'ArraySubscriptExpr':
@@ -282,6 +325,24 @@ class Tr:
         if kind == 'CompoundStmt':
             return self.stmts(s.get('inner', []) + rest, k)
         if kind == 'ReturnStmt':
+            if s.get('inner') and self.isvoid:
+                # `return voidcall(...);` in a void function: the call is a statement, then return
+                return self.stmts([s['inner'][0]], lambda: 'st')
+            if s.get('inner') and self.unit.get('state_calls'):
+                # `return this->f(args);` where f is a translated unit that itself returns (st', value): pass its pair through
+                c = s['inner'][0]
+                while c['kind'] in TRANSPARENT:
+                    c = c['inner'][0]
+                if c['kind'] == 'CXXMemberCallExpr':
+                    callee = c['inner'][0]
+                    while callee['kind'] in TRANSPARENT:
+                        callee = callee['inner'][0]
+                    base = callee['inner'][0]
+                    while base['kind'] in TRANSPARENT:
+                        base = base['inner'][0]
+                    if base['kind'] == 'CXXThisExpr' and callee.get('name') in self.unit['state_calls']:
+                        self.uses_this = True; self.mutates = True
+                        return self.expr(c)
             return self.ret(self.expr(s['inner'][0]) if s.get('inner') else None)
         if kind == 'DeclStmt':
             decls = s['inner']
@@ -292,6 +353,7 @@ class Tr:
                 v = decls[i]
                 if v['kind'] != 'VarDecl':
                     return go(i + 1)
+                self.locals.add(v['name'])
                 init = self.expr(v['inner'][0]) if v.get('inner') else 'dflt'
                 return '(let v_%s := %s in\n %s)' % (v['name'], init, go(i + 1))
             return go(0)
@@ -324,6 +386,8 @@ class Tr:
                 base = base['inner'][0]
             args = [self.expr(a) for a in s['inner'][1:] if a['kind'] != 'CXXDefaultArgExpr']
             nm = self.callname('m', callee['name'], len(args))
+            if base['kind'] == 'CXXThisExpr' and callee['name'] == self.selfname and len(args) == len(self.params) and callee.get('referencedMemberDecl') not in self.selfids:
+                nm = self.callname('m_base', callee['name'], len(args))
             if base['kind'] == 'CXXThisExpr':
                 self.uses_this = True; self.mutates = True
                 return '(let st := %s st%s in\n %s)' % (nm, ''.join(' ' + a for a in args), cont())
@@ -381,6 +445,11 @@ class Tr:
             return self.for_stmt(s, cont)
         if kind == 'NullStmt':
             return cont()
+        if kind == 'CStyleCastExpr' and qt(s) == 'void':
+            return cont()        # (void)unused;
+        if kind == 'CXXThrowExpr' and self.unit.get('effects'):
+            self.uses_this = True
+            return '(throw st)'          # the exception carries the state reached so far (unit option effects)
         if kind == 'CXXThrowExpr':
             return 'throw'
         if kind == 'CallExpr' or kind == 'CXXOperatorCallExpr':
@@ -389,8 +458,25 @@ class Tr:
             while callee['kind'] in TRANSPARENT:
                 callee = callee['inner'][0]
             name = (callee.get('referencedDecl') or {}).get('name', '')
-            if name in ('assert', '__assert_fail', 'ignore_unused_variable_warning'):
+            if self.unit.get('effects') and kind == 'CallExpr':
+                c2 = callee
+                while c2['kind'] in TRANSPARENT or (c2['kind'] == 'UnaryOperator' and c2.get('opcode') == '*'):
+                    c2 = c2['inner'][0]
+                n2 = (c2.get('referencedDecl') or {}).get('name', '')
+                if n2 in self.unit.get('effect_calls', {}) and len(s['inner']) == 1:
+                    self.uses_this = True; self.mutates = True
+                    return '(bind (%s st) (fun st =>\n %s))' % (self.unit['effect_calls'][n2], cont())
+                if n2 in self.unit.get('globals', ()) and len(s['inner']) == 1:
+                    self.uses_this = True; self.mutates = True
+                    return '(bind (call_g_%s st) (fun st =>\n %s))' % (n2, cont())
+            if name in ('assert', '__assert_fail', 'ignore_unused_variable_warning') or name in self.unit.get('skip_calls', ()):
+                # unit option skip_calls: argument-checking helpers that only throw (the unit's theorems carry the guard as a hypothesis)
                 return cont()
+            if kind == 'CXXOperatorCallExpr' and name == 'operator=' and len(s['inner']) == 3:
+                # class-type assignment  lhs = rhs;  (copy assignment is the identity on values)
+                lhs, rhs = s['inner'][1], s['inner'][2]
+                self.mutates = self.mutates or self._is_this_lhs(lhs)
+                return self.lhs_assign(lhs, self.expr(rhs), cont)
             raise Unsupported('call statement ' + name)
         raise Unsupported('stmt ' + kind)
 
@@ -442,6 +528,7 @@ class Tr:
         if not (init and init.get('kind') == 'DeclStmt' and len(init['inner']) == 1 and init['inner'][0].get('inner')):
             raise Unsupported('for-init')
         iv = init['inner'][0]; ivn = 'v_' + iv['name']
+        self.locals.add(iv['name'])
         lo = self.expr(iv['inner'][0])
         c = cond
         while c['kind'] in TRANSPARENT:
@@ -476,14 +563,30 @@ class Tr:
         return ('(let %s := fold_left (fun acc %s => let %s := acc in\n %s) (zrange %s %s) %s in\n %s)'
                 % (pat, ivn, pat, bodytxt, lo, hi, tup, cont()))
 
+    def collect_locals(self, n):
+        if n.get('kind') == 'VarDecl' and 'name' in n:
+            self.locals.add(n['name'])
+        for c in n.get('inner', []):
+            if isinstance(c, dict):
+                self.collect_locals(c)
+
     def run(self, gname):
+        self.collect_locals(self.body)
         body = self.stmts([self.body], lambda: self.ret(self.dflt))
-        ps = ''.join(' (v_%s : _)' % p['name'] for p in self.params)
+        def coqtype(p):
+            q = (p.get('type', {}).get('desugaredQualType') or p.get('type', {}).get('qualType', '')).replace('const ', '').replace('&', '').strip()
+            if q == 'bool':
+                return 'bool'
+            if q in ('int', 'long', 'unsigned int', 'unsigned long', 'char', 'size_t', 'std::size_t', 'uint32_t', 'int32_t', 'int64_t', 'uint64_t', 'long long', 'unsigned long long') \
+                    or q.endswith('Location') or q.endswith('DimensionType'):
+                return 'Z'
+            return '_'
+        ps = ''.join(' (v_%s : %s)' % (p['name'], coqtype(p)) for p in self.params)
         st = ' (st : _)' if (self.uses_this or self.isvoid) else ''
         if self.selfrec:
             K = self.unit.get('fuel', 2)
             stargs = ' st' if st else ''
-            return ('Fixpoint %s_fuel (fuel : nat)%s%s {struct fuel} :=\n match fuel with O => dflt | S fuel' % (gname, st, ps) +
+            return ('Fixpoint %s_fuel (fuel : nat)%s%s {struct fuel} :=\n match fuel with O => %s | S fuel' % (gname, st, ps, 'st' if self.isvoid else self.dflt) +
                     ' => let self := %s_fuel fuel in\n %s\n end.\nDefinition %s%s%s := %s_fuel %d%s%s.\n'
                     % (gname, body, gname, st, ps, gname, K, stargs, ''.join(' v_' + p['name'] for p in self.params)))
         return 'Definition %s%s%s :=\n %s.\n' % (gname, st, ps, body)
@@ -561,7 +664,7 @@ def qualify_enums(fn_docs, enums, unit):
 def translate_unit(name, unit, repo, outdir, builddir):
     src = unit['src']
     docs = clang_docs(repo, builddir, src, unit['qual'])
-    fn = find_def(docs, unit['qual'].split('::')[-1], unit.get('nparams'))
+    fn = find_def(docs, unit['qual'].split('::')[-1], unit.get('nparams'), instantiation=unit.get('instantiation'), ptypes=unit.get('ptypes'))
     rng = fn.get('range', {})
     b, e = rng.get('begin', {}).get('offset'), rng.get('end', {}).get('offset')
     path = rng.get('begin', {}).get('file') or fn.get('loc', {}).get('file') or src
@@ -575,18 +678,43 @@ def translate_unit(name, unit, repo, outdir, builddir):
     gname = unit.get('gname') or '%s_%s_%d' % (kind, fn['name'], len(tr.params))
     body = tr.run(gname)
     qualify_enums(docs, tr.enums, unit)
-    vals = probe_enum_values(repo, builddir, src, tr.enums)
+    cscopes = unit.get('consts', {})
+    cprobe = {}
+    for nm, rd in tr.consts.items():
+        if rd['name'] not in cscopes:
+            raise Unsupported('reference to non-local variable %s: add consts={name: qualified C++ spelling} to the unit' % rd['name'])
+        cprobe[nm] = dict(qual=cscopes[rd['name']], type=rd.get('type', {}).get('qualType', ''))
+    allp = dict(tr.enums); allp.update(cprobe)
+    vals = probe_enum_values(repo, builddir, src, allp)
+    cvals = {nm: vals.pop(nm) for nm in list(cprobe)}
     hdr = ['(* GENERATED by translator/cxx2gallina.py — do not edit, not committed.',
            '   unit %s : %s in %s bytes %s..%s sha256 %s *)' % (name, unit['qual'], path, b, e, sha)]
+    late = unit.get('imports_last')     # prelude names (eqb, leb, ltb ...) must win over Coq.Bool's: import the prelude after the stdlib
+    if late:
+        hdr.append('From Coq Require Import ZArith List Bool.')
     for imp in unit.get('imports', []):
         hdr.append('From GeosV Require Import %s.' % imp)
     for dep in unit.get('deps', []):
         hdr.append('From GeosV.Gen Require Import %s.' % dep)
-    hdr.append('From Coq Require Import ZArith List Bool.')
+    if not late:
+        hdr.append('From Coq Require Import ZArith List Bool.')
     hdr.append('Import ListNotations.')
     hdr.append('Local Open Scope Z_scope.')
     for nm in sorted(vals):
         hdr.append('Definition %s : Z := (%d)%%Z.' % (nm, vals[nm]))
+    for nm in sorted(cvals):
+        if 'bool' in cprobe[nm]['type']:
+            hdr.append('Definition %s : bool := %s.' % (nm, 'true' if cvals[nm] else 'false'))
+        else:
+            hdr.append('Definition %s : Z := (%d)%%Z.' % (nm, cvals[nm]))
+    for al, target in unit.get('aliases', {}).items():
+        hdr.append('Notation %s := %s (only parsing).' % (al, target))
+    virt = unit.get('virtuals', {})
+    if virt:
+        hdr.append('Section Virtuals.')
+        for vn, vt in virt.items():
+            hdr.append('Variable %s : %s.' % (vn, vt))
+        body = body + 'End Virtuals.\n'
     txt = '\n'.join(hdr) + '\n' + body
     os.makedirs(outdir, exist_ok=True)
     outp = os.path.join(outdir, name + '.v')
